@@ -633,7 +633,11 @@ func (in *Interp) equalTerm(x, y Value) *Term {
 // slices and strings
 
 func (in *Interp) sliceLen(s *SliceV) int {
-	return int(in.concInt(s.len_, "slice length"))
+	n := in.concInt(s.len_, "slice length")
+	if !s.len_.IsConst() {
+		s.len_ = intT(n) // equal on this path; paths are re-executed from scratch
+	}
+	return int(n)
 }
 
 func (in *Interp) sliceElem(s *SliceV, i int) *Cell {
